@@ -140,6 +140,7 @@ package defs
 //@     && (t.T != T_pointer ==> scalarKind(rtKind(vt), t.T))
 
 //@ const ghost $tok = Str
+//@ const ghost $ptok = Str
 //@ func doParseSlice(vt reflect.Type, et reflect.Type, def string, i *int, rt *Type) (t *Type, err error)
 //@   requires vt != nil && et != nil && rtKind(vt) == reflect.Slice && i != nil && 0 <= *i && *i <= len(def) && rt != nil && rt.K == nil && i + 8 <= $brk && rt + 40 <= $brk
 //@   modifies *i, fields(rt), $brk
@@ -153,8 +154,11 @@ package defs
 //@ func doParseType(vt reflect.Type, def string, i *int, allowPtrs bool) (t *Type, err error)
 //@   requires vt != nil && i != nil && 0 <= *i && *i <= len(def) && i + 8 <= $brk
 //@   modifies *i, $brk
+//@   entry ghost $ptok = ""
+//@   after readToken#0 ghost $ptok = res_tok
 //@   ensures 0 <= *i && *i <= len(def) && old($brk) <= $brk
 //@   ensures c12_node: err == nil ==> dtOK(t, vt) && old($brk) <= t
+//@   ensures c12_enum: err == nil && t.T == T_enum ==> len(def) > 0 && !kwMatch(keywordTab[T_i64], $ptok) && vt != i64type
 //@   ensures c13_nested: err == nil && !allowPtrs ==> t.T != T_pointer
 //@   ensures err != nil ==> t == nil
 
